@@ -3,11 +3,12 @@
 //@ kind W
 //@ def all NCH=2
 //@ def quick CMSTATE_BITFIELD_CHUNK=128 CMSTATE_BITFIELD_INT32_SIZE=(128/32)
+//@ def thorough CMSTATE_BITFIELD_CHUNK=256 CMSTATE_BITFIELD_INT32_SIZE=(256/32)
 //@ cbmc quick --unwind 6 --unwinding-assertions
-//@ cbmc thorough --unwind 34 --unwinding-assertions
+//@ cbmc thorough --unwind 10 --unwinding-assertions
 //@ entry h_cm_stateset_or
 //@ note W: operator|= and operator== on two sets of the same bit count (precondition of both operators: callers build all sets of one content model with the same leaf count), cached representation (1..128 bits) and dynamic representation with up to NCH = 2 chunks, each chunk of either set absent or present with any content; loops fully unwound, unwinding assertions on
-//@ note quick tier: chunk size rebound to 128 bits / 4 words by -D (see cm_stateset); non-SSE2 paths only (XERCES_HAVE_SSE2_INTRINSIC undefined)
+//@ note chunk size rebound to 128 (quick) / 256 (thorough) bits by -D (see cm_stateset); non-SSE2 paths only (XERCES_HAVE_SSE2_INTRINSIC undefined)
 //@ note `this` is a pointer parameter here (two objects of the class): members are reached through self-> by a sub rule; the reference-to-pointer locals `XMLInt32 *& other/mine = ...` become plain pointer copies (they are only read on the verified path); stubs as in cm_stateset
 #define VERIF_DEFINE_GHOSTS
 #include "verif_prelude.h"
